@@ -274,6 +274,8 @@ func scenario(seed int64, sn int) (int, int) {
 	// quiesce: stop the pipeline (drains merges, final persist), then full check
 	db.CloseKeepMapped()
 	vh.SetSink(nil)
+	// after a clean stop every committed change must have been merged and persisted
+	tr.Emit(vh.E("Quiesced"))
 	final := db.GetState()
 	_ = final
 	return int(ntran.Load()), int(commits.Load())
@@ -943,7 +945,9 @@ func (c *client) scan(td tableDef) {
 		lo, hi = keyVals(ts, ix, a), keyVals(ts, ix, b)
 		rng = index.Range{Org: ka, End: kb + "\x00"}
 	}
-	if isKey && c.r.Intn(3) == 0 {
+	if c.r.Intn(3) == 0 {
+		// a partial scan registers only the range up to the last row returned; the order of
+		// every index is total (non-unique indexes carry the key columns)
 		limit = 1 + c.r.Intn(3)
 	}
 	rows := []any{}
